@@ -234,10 +234,10 @@ def plan_C02(prop, tier, seed, t0):
         # --direct-every K: every K-th circuit also through the public Gate::add_to_graph with a caller-owned, permuted qubit map;
         # --unknown-every K: every K-th circuit also with an UnknownGate inserted (recorded in stats, not judged)
         dict(name="rand", engine="tograph", args=["--random", 250 if q else 4000, "--alphabet", "all", "--maxq", 3, "--maxlen", 8,
-                                                  "--direct-every", 6, "--unknown-every", 10], **C),
+                                                  "--direct-every", 10 if q else 5, "--unknown-every", 16 if q else 8], **C),
         dict(name="rand4", engine="tograph", args=["--random", 40 if q else 1000, "--alphabet", "unitary", "--maxq", 4, "--maxlen", 10], **C),
         # measurements with explicit outcome variables (shared, mixed with fresh ones, parities), also via QASM `measure` statements
-        dict(name="vars", engine="tograph", args=["--random", 50 if q else 1500, "--alphabet", "all", "--maxq", 3, "--maxlen", 7, "--vars", "--meas-boost",
+        dict(name="vars", engine="tograph", args=["--random", 30 if q else 1500, "--alphabet", "all", "--maxq", 3, "--maxlen", 7, "--vars", "--meas-boost",
                                                   "--direct-every", 3], **C),
     ]
     return run_plan(prop, tier, seed, t0, mcs, traces, "model_checking", COMMON_ASSUME,
@@ -348,7 +348,7 @@ def plan_C12(prop, tier, seed, t0):
         # --graphs-every K: every K-th pair also as two unitary DIAGRAMS that are not to_graph outputs (simplified, built with options,
         # colour-changed, renamed, times i), ground truth = Den of the logged diagrams
         dict(name="rand", engine="eqcheck", args=["--random", 400 if q else 2500, "--alphabet", "unitary", "--maxq", 3, "--maxlen", 7,
-                                                  "--graphs-every", 6 if q else 3], **T),
+                                                  "--graphs-every", 20 if q else 3], **T),
     ]
     return run_plan(prop, tier, seed, t0, mcs, traces, "model_checking", COMMON_ASSUME,
                     "MC: the checker's algorithm (adjoint, plug, every firing order of full_simp, identity test, scalar test) on every pair of "
@@ -575,15 +575,17 @@ META["C12"] = dict(level="model_checking", engine="eqcheck", design_ref="DESIGN.
          "all pairs of small circuits under every simplification order; every answer of the eight real entry points on independent, "
          "equal-by-construction and near-miss pairs is compared by TLC with the exact gate semantics.",
     note="ground truth by exact CircSem (<=4 qubits); the float test arg(scalar)=0 is mirrored by the exact test 'positive real' (DESIGN section 3 C12)")
-META["C03"] = dict(level="model_checking", engine="extract", design_ref="DESIGN.md section 3 C03 and 10.5", technique=TECH,
+META["C03"] = dict(level="model_checking", engine="extract", design_ref="DESIGN.md section 3 C03 and 10.2", technique=TECH,
     text="spec/Extract.tla models the extractor as a state machine and TLC checks the invariant Den(g);CircSem(c) ~ source in every state for all "
          "small circuits and all simplification orders. Every extraction the real code performs on enumerated and random circuits (all strategy x extractor-mode combinations, both backends, "
          "and the CLI end to end) is validated per program by TLC with the specification's exact circuit semantics: equivalence up to a "
          "non-zero scalar, basic gate set, same qubits, permutation witness in up-to-permutation mode; failure to extract, panics and "
          "time-outs are violations.",
-    note="the model uses a plain Gauss-Jordan eliminator (the external bitgauss eliminator and the single-solution-set heuristic are not transcribed: any "
-         "row-operation sequence keeps the invariant; which sequences the code picks is covered by the recorded extractions only); no per-step hooks, so the "
-         "binding to the code is end to end per program; CLI inputs exclude the pyzx-specific `pp` gate, which the QASM front end does not declare")
+    note="the Gauss phase of the model is either a plain Gauss-Jordan elimination or the single-solution-set step with ANY extractable row and ANY target "
+         "(the external bitgauss eliminator is not transcribed: any row-operation sequence keeps the invariant); hook H4 logs every phase of the real "
+         "extraction loop and mc/Trace_XSteps.tla checks each as a transition of spec/Extract.tla (L1) besides the end-to-end verdict per program (L2); "
+         "ExtInv on recorded intermediate states is evaluated for diagrams up to 6 spiders only; CLI inputs exclude the pyzx-specific `pp` gate, which "
+         "the QASM front end does not declare; flow-type extractors are only promised after flow_simp (other combinations are recorded, not judged)")
 META["C09"] = dict(level="model_checking", engine="backends", design_ref="DESIGN.md section 3 C09", technique=TECH,
     text="spec/Backends.tla models the vector store (Option slots, free-name stack, swap_remove adjacency lists, cached numv/nume, pack "
          "renumbering) and the hash store (maps of maps, fresh counter) as two concrete machines next to the abstract graph; TLC exhausts "
